@@ -147,7 +147,7 @@ theorem install {P : Prog} {rank : Nat → Nat} {B : List NodeId} (hacy : Acycli
     (hstamps : ∀ d, d ∈ fr3.rdeps → d.stamp = s3.epoch) (htu : tuN ≤ s3.epoch)
     (horder : fr3.rdeps.reverse.map (·.node) = pushAll [] (R.map Read.kind)) (hmaxE : fr3.maxTu ≤ s3.epoch)
     (hold : ∀ rev, alookup s.derived id = some rev → rev.tv < s.epoch ∧
-        ((v = rev.val ∧ tuN = rev.tu) ∨ (rev.deps ≠ [] ∧ rev.tv < tuN)))
+        ((v = rev.val ∧ tuN = rev.tu) ∨ (rev.deps ≠ [] ∧ rev.tv < tuN ∧ v ≠ rev.val)))
     (he : sF.epoch = s3.epoch) (hs : sF.srcs = s3.srcs) (hm : sF.maps = s3.maps)
     (hd : sF.derived = ainsert s3.derived id (Rev.mk v tuN s3.epoch fr3.rdeps.reverse))
     (hstk : ∀ fr, fr ∈ sF.stack → fr.id ∈ B) :
